@@ -184,7 +184,12 @@ def fingerprint(fn, key):
     """what stays the same when the function around a panic site is renamed, extracted or inlined:
     the source file, the kind of site and its message / callee"""
     parts = key.split("|")
-    return [fn.file, parts[1] if len(parts) > 1 else "", parts[2] if len(parts) > 2 else ""]
+    kind = parts[1] if len(parts) > 1 else ""
+    what = parts[2] if len(parts) > 2 else ""
+    if kind in ("index", "bounds"):
+        # `v[i]` on a Vec is a call of Index::index, on a slice / array a bounds assertion: one class
+        kind, what = "idx", ""
+    return [fn.file, kind, what]
 
 
 def _moved_sites(prog, rule, scope, sites, audited, baseline):
